@@ -37,7 +37,7 @@ def cmp_under(test: ast.AST, a: str, b: str, order: str):
 def _top_normalised(fn):
     """two representations of the open blocks are in use: a stack of indent *increments* with a running current level, or a stack of the block *columns* whose top is the current
     level.  For the second one `indents[-1] if indents else 0` (and `indents and indents[-1] > x`, `indents[-1]` under a non-empty test) IS the current level: rewrite it to the
-    name the clauses are stated over.  Returns (function copy, 'increments' | 'absolute')."""
+    name the clauses are stated over.  Returns (function copy, 'REP_INC' | 'REP_ABS')."""
     import copy as _copy
     S, CUR = "indents", "curr_level"
 
@@ -47,7 +47,7 @@ def _top_normalised(fn):
                   for n in ast.walk(fn))
     maintained = any(isinstance(n, ast.AugAssign) and norm(n.target) == CUR for n in ast.walk(fn))
     if not has_abs or maintained:
-        return fn, "increments"
+        return fn, "REP_INC"
 
     class T(ast.NodeTransformer):
         def visit_IfExp(self, n):
@@ -83,7 +83,7 @@ def _top_normalised(fn):
             ch._parent = node
     from sa.canon import number_nodes
     number_nodes(new)
-    return new, "absolute"
+    return new, "REP_ABS"
 
 
 def run(c):
@@ -139,7 +139,7 @@ def r1(c):
         ok = t_gt in (True, None) and t_eq is False and t_lt is False
         pops = [x for x in calls_in(w) if isinstance(x.func, ast.Attribute) and x.func.attr == "pop" and norm(x.func.value) == "indents"]
         dec = [n for n in walk_no_nested(w) if isinstance(n, ast.AugAssign) and isinstance(n.op, ast.Sub) and norm(n.target) == "curr_level"]
-        if rep == "absolute":
+        if rep == "REP_ABS":
             # the stack holds the columns themselves: the current level is its top, a plain pop is the whole step
             ok = ok and len(pops) == 1 and not dec and not pops[0].args
         else:
@@ -158,7 +158,7 @@ def r1(c):
             key_text="refusal")
     push = [x for x in calls_in(arms) if isinstance(x.func, ast.Attribute) and x.func.attr == "append" and norm(x.func.value) == "indents"
             and not any(x is y_ for y_ in ast.walk(ded))]
-    ok = len(push) == 1 and norm(push[0].args[0]).replace(" ", "") == ("level" if rep == "absolute" else "level-curr_level")
+    ok = len(push) == 1 and norm(push[0].args[0]).replace(" ", "") == ("level" if rep == "REP_ABS" else "level-curr_level")
     c.check("C05.R1", ok, repo.loc(m, arms), "_stripped_indents/push", "the indent arm does not push level - curr_level", key_text="push")
     ok = isinstance(y.value, ast.Tuple) and norm(y.value.elts[0]) == "len(indents)" and any("isinstance(line, str)" in a for a in G.atoms(f))
     c.check("C05.R1", ok, repo.loc(m, y), "_stripped_indents/yield", "the depth yielded is not len(indents), or non-string markers are yielded as rows", key_text="yield")
@@ -173,7 +173,7 @@ def r1(c):
             "a line indented less than the first line re-bases the block instead of being refused (the level < 0 test can no longer fire)", key_text="base-offset")
     resets = [n for n in walk_no_nested(fn) if isinstance(n, ast.Assign) and norm(n.targets[0]) in ("indents", "curr_level", "g_level") and gm.conds[id(n)]
               and G.implies(gm.formula(n, G.GuardEnv(rename=lambda s_: "is_end" if s_ in ("line is BlockEnd", "BlockEnd is line") else s_)), G.Atom("is_end"))]
-    c.check("C05.R1", {norm(n.targets[0]) for n in resets} == ({"indents", "g_level"} if rep == "absolute" else {"indents", "curr_level", "g_level"}), repo.loc(m, fn), "_stripped_indents/reset-on-BlockEnd", "the indent stack, current level and base offset are not all reset at a section break", key_text="reset")
+    c.check("C05.R1", {norm(n.targets[0]) for n in resets} == ({"indents", "g_level"} if rep == "REP_ABS" else {"indents", "curr_level", "g_level"}), repo.loc(m, fn), "_stripped_indents/reset-on-BlockEnd", "the indent stack, current level and base offset are not all reset at a section break", key_text="reset")
 
 
 def r2(c):
